@@ -240,11 +240,11 @@ func ddlColumns(stmts []string) map[string]map[string]bool {
 }
 
 type igSpec struct {
-	desc   string
-	ig     config.Integration
-	shape  *shape
-	mode   string // log | tx | trace
-	nrows  int
+	desc  string
+	ig    config.Integration
+	shape *shape
+	mode  string // log | tx | trace
+	nrows int
 }
 
 func mkIG(name, table string, sh *shape, mode string, extra []wpg.Column, userIdentity []string, reverse bool) igSpec {
@@ -355,6 +355,9 @@ func runConf(descr string, specs []igSpec) []string {
 			if !tcols[k] {
 				fails = append(fails, fmt.Sprintf("%s/%s: unique-key column %q is not a table column", descr, s.desc, k))
 			}
+		}
+		if s.nrows < 0 {
+			continue
 		}
 		dg, err := dig.New(ig.Name, ig.Event, ig.Block, ig.Table, ig.Notification, ig.FilterAGG)
 		if err != nil {
@@ -482,6 +485,24 @@ func TestVerifSchemaBounded(t *testing.T) {
 			report(runConf(fmt.Sprintf("shared#%d+%d", i, j), []igSpec{mk1("a", "shared", variants[0]), mk2("b", "shared", variants[4])}))
 			report(runConf(fmt.Sprintf("separate#%d+%d", i, j), []igSpec{mk1("a", "t1", variants[2]), mk2("b", "t2", variants[1])}))
 		}
+	}
+	// a filter reference must not disturb the referenced integration's key: the
+	// referenced column holds the same value in every row
+	for _, onBlock := range []bool{true, false} {
+		ref := mkIG("r", "t_r", nil, "tx", nil, nil, false)
+		dep := mkIG("d", "t_d", &shs[0], "log", []wpg.Column{{Name: "txto", Type: "bytea"}}, nil, false)
+		f := dig.Filter{Op: "contains", Ref: dig.Ref{Integration: "r", Column: "txv"}}
+		if onBlock {
+			dep.ig.Block = append(dep.ig.Block, dig.BlockData{Name: "tx_to", Column: "txto", Filter: f})
+		} else {
+			dep.ig.Block = append(dep.ig.Block, dig.BlockData{Name: "tx_to", Column: "txto"})
+			dep.ig.Event.Inputs = append([]dig.Input(nil), dep.ig.Event.Inputs...)
+			dep.ig.Event.Inputs[2].Filter = f
+		}
+		// only the referenced integration is exercised row by row (the dependent's
+		// filter would query the database)
+		dep.nrows = -1
+		report(runConf(fmt.Sprintf("filter-ref onBlock=%v", onBlock), []igSpec{ref, dep}))
 	}
 	// configurations that must be rejected
 	rej := func(desc string, mut func(ig *config.Integration)) {
